@@ -75,6 +75,8 @@ type WorkerOut struct {
 	Workloads   int               `json:"distinct_workloads"`
 	Skipped     map[string]int    `json:"skipped"`
 	RaceEnabled bool              `json:"race_enabled"`
+	AutoOps     []string          `json:"auto_discovered_methods"`          // public methods outside the hand-written catalogue, exercised by reflection (C01)
+	AutoSkipped []string          `json:"undiscoverable_methods,omitempty"` // outside the catalogue and not callable with generated arguments
 }
 
 func hash64(s string) uint64 {
@@ -104,6 +106,9 @@ func addStats(w *WorkerOut, o *RunOut) {
 	c["probe_reader_refused_by_pending_writer"] += o.Stats.ReaderRefuse
 	c["probe_two_tasks_parked_on_same_object"] += o.Stats.SameLockWait
 	c["probe_preempted_between_two_acquisitions_of_one_call"] += o.Stats.MidOpSwitch
+	if o.Stats.Goscheds > 0 {
+		c["gosched_scheduling_points"] += o.Stats.Goscheds
+	}
 	if o.Stats.AtomicOps > 0 {
 		c["atomic_scheduling_points"] += o.Stats.AtomicOps
 	}
@@ -136,6 +141,8 @@ func TestWorker(t *testing.T) {
 		minimise(t)
 	case "merge":
 		mergeSigs(t)
+	case "probe":
+		probe(t)
 	default:
 		t.Fatalf("unknown VERIF_MODE %q", mode)
 	}
@@ -161,7 +168,8 @@ func explore(t *testing.T, selftest bool) {
 	sigCap := int(envInt("VERIF_SIGCAP", 3000000))
 
 	w := &WorkerOut{Prop: prop, Tier: tier, BaseSeed: base, Worker: worker, Ends: map[string]int{}, Counters: map[string]int{},
-		Shapes: map[string]int{}, Policies: map[string]int{}, Skipped: map[string]int{}, RaceEnabled: simrt.RaceBuild}
+		Shapes: map[string]int{}, Policies: map[string]int{}, Skipped: map[string]int{}, RaceEnabled: simrt.RaceBuild,
+		AutoOps: autoOpsFound, AutoSkipped: autoOpsSkipped}
 	if selftest {
 		w.Hashes = map[string]uint64{}
 	}
@@ -362,4 +370,69 @@ func orEmpty(d []simrt.Decision) []simrt.Decision {
 		return []simrt.Decision{}
 	}
 	return d
+}
+
+
+// probe runs one explicit workload (a replay file's "workload", decisions ignored) under VERIF_RUNS
+// seeded schedules of every policy and prints how often each violation identity showed: a
+// directed question ("can the machinery reach this at all?") for diagnosing a miss.
+func probe(t *testing.T) {
+	rf, work, err := loadReplay(os.Getenv("VERIF_REPLAY"))
+	if err != nil {
+		fmt.Fprintln(os.Stderr, "probe:", err)
+		os.Exit(2)
+	}
+	n := int(envInt("VERIF_RUNS", 2000))
+	sh, ok := work.(shrinker)
+	if !ok {
+		fmt.Fprintln(os.Stderr, "probe: workload cannot take another scheduling configuration")
+		os.Exit(2)
+	}
+	base := work.Sim()
+	var pols []SimSpec
+	for _, p := range []float64{0.05, 0.2, 0.5} {
+		q := base
+		q.Policy, q.PreemptP = simrt.PolSticky, p
+		pols = append(pols, q)
+	}
+	q := base
+	q.Policy = simrt.PolRandom
+	pols = append(pols, q, q)
+	for d := 1; d <= 3; d++ {
+		q.Policy, q.PCTDepth, q.PCTSteps = simrt.PolPCT, d, 40
+		pols = append(pols, q)
+	}
+	counts := map[string]int{}
+	ends := map[string]int{}
+	var first *RunOut
+	for i := 0; i < n; i++ {
+		seed := simrt.SplitMix64(rf.Seed + uint64(i)*0x9e3779b97f4a7c15)
+		w := sh.WithSim(pols[i%len(pols)])
+		out := runOne(t, rf.Property, seed, w, simrt.NewRand(seed), nil, false)
+		if p, ok := w.(poster); ok {
+			p.Post(out)
+		}
+		ends[out.End]++
+		for _, v := range out.Violations {
+			counts[v.Identity]++
+			if first == nil {
+				first = out
+			}
+		}
+	}
+	fmt.Printf("probe: %d runs, ends %v\n", n, ends)
+	ids := make([]string, 0, len(counts))
+	for id := range counts {
+		ids = append(ids, id)
+	}
+	sort.Strings(ids)
+	for _, id := range ids {
+		fmt.Printf("probe: %6d  %s\n", counts[id], id)
+	}
+	if first != nil {
+		fmt.Printf("probe: first violating run:\n  %s\n", strings.Join(first.History, "\n  "))
+		if outPath := os.Getenv("VERIF_OUT"); outPath != "" {
+			writeJSON(outPath, toReplay(first, first.Violations[0]))
+		}
+	}
 }
